@@ -126,7 +126,7 @@ theorem inv_work_upfilter (c : Cfg) (ar aq : Nat) (s : S) (h : Inv c ar aq s) (h
   · -- [proxy7] the label `reset during UpFilter`: this `processError` handles an upstream reset raised while the sender
     -- filters ran — retried, or answered with the error reply and the pass goes on (repair a3a21969e)
     have hfin : Inv c ar aq (finishPhase c s) :=
-      finish_inv c ar aq s h hrun (by rw [hp]; intro hh; cases hh) (by rw [hp]; intro hh; cases hh)
+      finish_inv c ar aq s h hrun (by rw [hp]; decide) (by rw [hp]; intro hh; cases hh)
         (fun hq => by rw [hurT] at hq; cases hq)
     rw [finishPhase_eq] at hfin
     cases hpe : processError c s with
